@@ -589,4 +589,115 @@ theorem Doc.Fresh.not_has {d : Doc} (h : d.Fresh) (j : Nat) (hj : d.next ≤ j) 
     d.hasBind j = false ∧ d.hasSet j = false :=
   Doc.not_has_of_maxId_lt j d (by have := h.1; omega)
 
+
+/-! ## documents as containers of root nodes (proof device) -/
+
+def Layer.mapNodes (g : Node → Node) (l : Layer) : Layer :=
+  { l with scope := l.scope.map g, order := l.order.map g }
+def Layer.nodes (l : Layer) : List Node := l.scope ++ l.order
+
+def Doc.mapNodes (g : Node → Node) (d : Doc) : Doc :=
+  { d with
+    target := g d.target
+    scratch := d.scratch.map g
+    scope := d.scope.map g
+    stOrder := d.stOrder.map g
+    stack := d.stack.map (Layer.mapNodes g)
+    topScope := d.topScope.map (·.map g) }
+
+/-- every root node the document holds -/
+def Doc.nodes (d : Doc) : List Node :=
+  d.target :: (d.scope ++ d.stOrder ++ d.stack.flatMap Layer.nodes ++ d.topScope.getD [] ++
+    d.scratch.toList)
+
+theorem Layer.updBind_eq_mapNodes (id : Nat) (v : Node) (l : Layer) :
+    l.updBind id v = l.mapNodes (Node.updBind id v) := by
+  simp [Layer.updBind, Layer.mapNodes, updBindL_eq_map]
+theorem Layer.updSet_eq_mapNodes (sid : Nat) (f : Node → Node) (l : Layer) :
+    l.updSet sid f = l.mapNodes (Node.updSet sid f) := by
+  simp [Layer.updSet, Layer.mapNodes, updSetL_eq_map]
+
+theorem Doc.updBind_eq_mapNodes (id : Nat) (v : Node) (d : Doc) :
+    d.updBind id v = d.mapNodes (Node.updBind id v) := by
+  simp only [Doc.updBind, Doc.mapNodes, updBindL_eq_map]
+  congr 1
+  · exact List.map_congr_left (fun l _ => Layer.updBind_eq_mapNodes id v l)
+  · cases d.topScope <;> simp [updBindL_eq_map]
+theorem Doc.updSet_eq_mapNodes (sid : Nat) (f : Node → Node) (d : Doc) :
+    d.updSet sid f = d.mapNodes (Node.updSet sid f) := by
+  simp only [Doc.updSet, Doc.mapNodes, updSetL_eq_map]
+  congr 1
+  · exact List.map_congr_left (fun l _ => Layer.updSet_eq_mapNodes sid f l)
+  · cases d.topScope <;> simp [updSetL_eq_map]
+
+theorem Layer.mapNodes_congr (g g' : Node → Node) (l : Layer) (h : ∀ x ∈ l.nodes, g x = g' x) :
+    l.mapNodes g = l.mapNodes g' := by
+  simp only [Layer.nodes, List.mem_append] at h
+  simp only [Layer.mapNodes]
+  congr 1
+  · exact List.map_congr_left (fun x hx => h x (Or.inl hx))
+  · exact List.map_congr_left (fun x hx => h x (Or.inr hx))
+
+theorem Doc.mapNodes_congr (g g' : Node → Node) (d : Doc) (h : ∀ x ∈ d.nodes, g x = g' x) :
+    d.mapNodes g = d.mapNodes g' := by
+  simp only [Doc.nodes, List.mem_cons, List.mem_append, List.mem_flatMap, Option.mem_toList] at h
+  simp only [Doc.mapNodes]
+  congr 1
+  · exact h _ (Or.inl rfl)
+  · exact List.map_congr_left (fun x hx => h x (Or.inr (Or.inl (Or.inl (Or.inl (Or.inl hx))))))
+  · exact List.map_congr_left (fun x hx => h x (Or.inr (Or.inl (Or.inl (Or.inl (Or.inr hx))))))
+  · exact List.map_congr_left (fun l hl => Layer.mapNodes_congr g g' l
+      (fun x hx => h x (Or.inr (Or.inl (Or.inl (Or.inr ⟨l, hl, hx⟩))))))
+  · cases ht : d.topScope with
+    | none => rfl
+    | some s =>
+      simp only [Option.map_some, Option.some.injEq]
+      exact List.map_congr_left (fun x hx => h x (Or.inr (Or.inl (Or.inr (by simp [ht, hx])))))
+  · cases ht : d.scratch with
+    | none => rfl
+    | some s =>
+      simp only [Option.map_some, Option.some.injEq]
+      exact h s (Or.inr (Or.inr (by simp [ht])))
+
+theorem Layer.mapNodes_mapNodes (g h : Node → Node) (l : Layer) :
+    (l.mapNodes h).mapNodes g = l.mapNodes (fun x => g (h x)) := by
+  simp [Layer.mapNodes, Function.comp_def]
+
+theorem Doc.mapNodes_mapNodes (g h : Node → Node) (d : Doc) :
+    (d.mapNodes h).mapNodes g = d.mapNodes (fun x => g (h x)) := by
+  simp [Doc.mapNodes, Function.comp_def, Layer.mapNodes_mapNodes]
+
+theorem Layer.mapNodes_id' (l : Layer) : l.mapNodes (fun x => x) = l := by
+  simp [Layer.mapNodes]
+theorem Doc.mapNodes_id' (d : Doc) : d.mapNodes (fun x => x) = d := by
+  have : d.stack.map (Layer.mapNodes fun x => x) = d.stack := by
+    conv => rhs; rw [← List.map_id d.stack]
+    exact List.map_congr_left (fun l _ => Layer.mapNodes_id' l)
+  simp [Doc.mapNodes, this]
+
+theorem Doc.mapNodes_eq_self (g : Node → Node) (d : Doc) (h : ∀ x ∈ d.nodes, g x = x) :
+    d.mapNodes g = d := by
+  rw [Doc.mapNodes_congr g (fun x => x) d h, Doc.mapNodes_id']
+
+theorem Doc.hasBind_eq_any (j : Nat) (d : Doc) : d.hasBind j = d.nodes.any (Node.hasBind j) := by
+  simp only [Doc.hasBind, Doc.nodes, List.any_cons, List.any_append, hasBindL_eq_any,
+    List.any_flatMap, Layer.nodes, Layer.hasBind]
+  cases d.topScope <;> cases d.scratch <;> simp [Bool.or_assoc, hasBindL_eq_any]
+
+theorem Doc.hasSet_eq_any (s : Nat) (d : Doc) : d.hasSet s = d.nodes.any (Node.hasSet s) := by
+  simp only [Doc.hasSet, Doc.nodes, List.any_cons, List.any_append, hasSetL_eq_any,
+    List.any_flatMap, Layer.nodes, Layer.hasSet]
+  cases d.topScope <;> cases d.scratch <;> simp [Bool.or_assoc, hasSetL_eq_any]
+
+theorem Doc.not_hasBind_nodes {j : Nat} {d : Doc} (h : d.hasBind j = false) :
+    ∀ x ∈ d.nodes, Node.hasBind j x = false := by
+  rw [Doc.hasBind_eq_any, List.any_eq_false] at h
+  intro x hx; simpa using h x hx
+
+theorem Doc.not_hasSet_nodes {s : Nat} {d : Doc} (h : d.hasSet s = false) :
+    ∀ x ∈ d.nodes, Node.hasSet s x = false := by
+  rw [Doc.hasSet_eq_any, List.any_eq_false] at h
+  intro x hx; simpa using h x hx
+
+
 end Nima
